@@ -1,6 +1,7 @@
 """Contract language, clause environments, modular call handling, and the
 driver that verifies one function against its contract."""
 import ast
+import os
 import collections
 import z3
 
@@ -347,10 +348,17 @@ class ClauseEnv:
             return True
         if z3.is_false(c):
             return False
-        if not ctx.feasible(z3.Not(c)):
-            return True
-        if not ctx.feasible(c):
-            return False
+        # No solver here: what a clause looks like must not depend on a time-limited solver answer (and z3 5.1 has been
+        # seen to answer `unsat` on a satisfiable string formula once in a few hundred runs, which turned a ghost update
+        # into a wrong one).  Two different constants for one term are the only contradiction recognised.
+        if z3.is_and(c):
+            eqs = {}
+            for t in c.children():
+                if z3.is_eq(t) and (z3.is_int_value(t.arg(1)) or z3.is_string_value(t.arg(1))):
+                    k0 = t.arg(0).get_id()
+                    if k0 in eqs and not eqs[k0].eq(t.arg(1)):
+                        return False
+                    eqs[k0] = t.arg(1)
         return None
 
     def ite(self, cond, a, b):
